@@ -524,6 +524,17 @@ func rulesC14(c *Ctx) {
 			}
 		}
 	}
+	if admit == nil {
+		// no return with the constant status 0: the return that hands a TokenInfo to the caller with a status that is not a
+		// constant refusal is what admits (the rules below then ask whether it is reachable with a failing check)
+		for _, r := range v.Returns() {
+			if len(r.Results) == 3 && !isNilIdent(r.Results[0]) {
+				if _, isConst := v.ConstInt(r.Results[2]); !isConst && admit == nil {
+					admit = r
+				}
+			}
+		}
+	}
 	c.Need(admit != nil, "verify: return with code 0")
 	av := g.VertexOf(admit)
 	codeOf := func(r *ast.ReturnStmt) int64 {
@@ -767,6 +778,18 @@ func rulesC14(c *Ctx) {
 			}
 		}
 		c.Need(tok != nil && code != nil, "handler: tokenInfo, errmsg, code := verify(...)")
+		// every request is put to the caller's verifier: verify receives RequireBearerToken's own parameter, which is never
+		// replaced (a memoising or otherwise wrapping verifier answers for the real one — a revoked token stays admitted)
+		vp := rb.ParamWhere(func(t types.Type) bool { return isNamedType(t, modPath+"/auth", "TokenVerifier") })
+		c.Need(vp != nil, "RequireBearerToken: TokenVerifier parameter")
+		okArg := false
+		for _, call := range hl.CallsIn(hl.Body, verifyObj, false) {
+			if len(call.Args) == 3 && hl.ObjOf(call.Args[1]) == types.Object(vp) {
+				okArg = true
+			}
+		}
+		nW := len(rb.writesToVar(rb.Body, vp, true))
+		c.Check(okArg && nW == 0, "middleware:asks-the-callers-verifier", rb, nil, "verify is called with the verifier parameter of RequireBearerToken, and that parameter is never reassigned (%d writes)", nW)
 		n := 0
 		for v2 := 0; v2 < hg.N; v2++ {
 			nd := hg.Node(v2)
